@@ -307,7 +307,7 @@ func TestVersionTime(t *testing.T) {
 }
 
 func TestVersionID(t *testing.T) {
-	ev.Rule(chkID, "rapid: same histories; for each history every canonical reference as version id plus an unknown one; oracle: Resolve(full, WithVersionID(V)) == Resolve(chronological prefix of published operations up to and including V's operation); unknown V must be an error; non-trivial = the cut removes >= 1 operation that the full resolution applies")
+	ev.Rule(chkID, "rapid: same histories; for each history every canonical reference as version id plus two unknown ones (one of them worded like an error message: 'ref not found', 'not found', ...); oracle: Resolve(full, WithVersionID(V)) == Resolve(chronological prefix of published operations up to and including V's operation); unknown V must be an error; non-trivial = the cut removes >= 1 operation that the full resolution applies")
 	ev.Rapid(t, chkID, 250, 2500, func(t *rapid.T) {
 		base := genHistory(t)
 		var vs []string
@@ -316,12 +316,19 @@ func TestVersionID(t *testing.T) {
 				vs = append(vs, o.Desc.Ref)
 			}
 		}
-		vs = append(vs, "no-such-reference")
+		// unknown version ids: a plain one and one whose text resembles the wording of error messages (a caller's string
+		// that is echoed in an error must not be mistaken for the error's meaning)
+		unknown := map[string]bool{"no-such-reference": true}
+		unknown[rapid.SampledFrom([]string{"ref not found", "not found", "uniqueSuffix not found in the store", "create operation not found", "ref-0 ", "REF-0", "' is not a valid versionId"}).Draw(t, "unknownVersionId")] = true
+		for u := range unknown {
+			vs = append(vs, u)
+		}
+		sort.Strings(vs)
 		for _, V := range vs {
 			c := *base
 			c.Cut, c.V = "id", V
 			kind, sig, msg, nt := evalCase(&c)
-			ev.Record(chkID, nt || V == "no-such-reference", caseID(&c), "cut:id")
+			ev.Record(chkID, nt || unknown[V], caseID(&c), "cut:id", fmt.Sprintf("unknown-id:%v", unknown[V]))
 			ev.SampleFn(chkID, func() interface{} { s := c.Summary(); s["versionId"] = V; return s })
 			if kind != "" {
 				ev.Fail(t, chkID, kind, sig, &c, "%s", msg)
